@@ -262,7 +262,7 @@ pub fn run(ctx: &mut Ctx) {
         Ok(())
     });
 
-    let cases = ctx.tier.pick(60_000u64, 1_500_000u64);
+    let cases = ctx.tier.pick(600_000u64, 5_000_000u64);
     ctx.pbt("c16-random", cases, 160, |t, st| {
         let mode = gen_mode(t);
         let (pts, class) = gen_points(t, 12, true);
